@@ -1,2 +1,245 @@
-import FpgoVerif.Model.C17
-/-! Property theorems for C17 (none yet). -/
+import FpgoVerif.Proofs.C17Subst
+import FpgoVerif.Proofs.C17Effect
+import FpgoVerif.Gen.ApiTable
+/-! Property theorems for C17 — "SimpleAPI sends exactly the request it was defined with, lazily, and
+    decodes it".  All statements are about the definitions the driver executes
+    (`replacePathParams`, `effect`, `namedCtor`, … of Model/C17*.lean). -/
+namespace FpgoVerif.C17
+
+/-! ## URL law -/
+
+/-- **URL clause.**  For every well-formed template (literal text without `{`, placeholders `{name}`
+    with brace-free names), every parameter map `ps` (distinct keys, no key contains `}`, no printed
+    value contains `{`) and EVERY iteration order `ps'` of that map, the loop of
+    `replacePathParams` yields BaseURL + "/" + the template with every supplied `{key}` replaced by its
+    value (simultaneous substitution). -/
+theorem C17_url (base : Str) (ts : List Tok) (ps ps' : List (Str × Val))
+    (hc : Clean ts) (hp : paramsOK ps = true) (hnd : (ps.map (·.1)).Nodup) (hperm : ps'.Perm ps) :
+    replacePathParams base (render ts) ps' = base ++ '/' :: Spec.subst ts ps := by
+  have hp' : paramsOK ps' = true := by
+    unfold paramsOK at *
+    rw [List.all_eq_true] at *
+    exact fun x hx => hp x (hperm.mem_iff.mp hx)
+  unfold replacePathParams
+  rw [replaceLoop_render ts ps' hc hp', render_tokLoop, subst_perm ts ps ps' hperm hnd]
+
+/-- the same law on template *strings*: `tokenize` is the (partial) parser of well-formed templates -/
+theorem C17_url_string (base tmpl : Str) (ts : List Tok) (ps ps' : List (Str × Val))
+    (ht : tokenize tmpl = some ts) (hp : paramsOK ps = true) (hnd : (ps.map (·.1)).Nodup) (hperm : ps'.Perm ps) :
+    replacePathParams base tmpl ps' = base ++ '/' :: Spec.subst ts ps := by
+  obtain ⟨hr, hc⟩ := tokenize_sound ht
+  rw [← hr]
+  exact C17_url base ts ps ps' hc hp hnd hperm
+
+/-- the side condition "well-formed template" is exactly "`tokenize` succeeds": every well-formed token list
+    is recovered from its rendering, so `C17_url_string` covers every template made of literal text
+    (without `{`) and `{name}` placeholders (brace-free names), with any number of placeholders -/
+theorem C17_template_wellformed (ts : List Tok) (hc : Clean ts) : tokenize (render ts) = some ts :=
+  tokenize_complete ts hc
+
+/-- non-vacuity: a two-placeholder template, a value equal to another key's name, both orders -/
+example : replacePathParams "http://h".toList "u/{id}/n/{name}".toList
+      [("name".toList, .str "id".toList), ("id".toList, .int 7)] = "http://h/u/7/n/id".toList ∧
+    tokenize "u/{id}/n/{name}".toList = some ("u/".toList.map .lit ++ [.hole "id".toList] ++ "/n/".toList.map .lit ++ [.hole "name".toList]) ∧
+    paramsOK [("id".toList, .int 7), ("name".toList, .str "id".toList)] = true := by decide
+
+/-- outside the side condition the law is false (and Go's map order decides the result): with the
+    value `{b}` for `a`, the order a,b gives `X/X`, the order b,a gives `{b}/X` -/
+theorem C17_url_side_condition_needed :
+    replacePathParams [] "{a}/{b}".toList [("a".toList, .str "{b}".toList), ("b".toList, .str "X".toList)] = "/X/X".toList ∧
+    replacePathParams [] "{a}/{b}".toList [("b".toList, .str "X".toList), ("a".toList, .str "{b}".toList)] = "/{b}/X".toList := by
+  decide
+
+/-- the pinned code (before fix f67e541) restarted from the template for every key: only the key
+    iterated last is substituted -/
+theorem C17_pinned_url_refuted :
+    replaceLoop true "{a}/{b}".toList [("a".toList, .str "1".toList), ("b".toList, .str "2".toList)] = "{a}/2".toList := by
+  decide
+
+/-! ## constructor table (regenerated from the source on every run) -/
+
+def ctorTuple (r : CtorRow) : String × String × String × String × String :=
+  (r.name, r.delegate, r.method, r.contentType, r.serializer)
+
+def genericTuple (g : GenericRow) : String × String × Nat × Bool × String × Bool × String × String × String × Bool :=
+  (g.name, g.sendCall, g.sendCalls, g.insideEffect, g.headerArg, g.headerCloned, g.methodArg, g.urlArg, g.contentTypeArg, g.decodeInside)
+
+/-- the constructors in the source are exactly the rows the model interprets -/
+theorem C17_table : Gen.apiCtors = expectedCtors.map ctorTuple ∧ Gen.apiGenerics = expectedGenerics.map genericTuple :=
+  ⟨by decide, by rfl⟩
+
+/-- **method / content-type clause** over the regenerated table: every named constructor passes the
+    HTTP method its name says and the declared content type, to a known generic constructor -/
+theorem C17_method : ∀ c ∈ Gen.apiCtors,
+    methodNamedBy c.1 = some c.2.2.1 ∧ contentTypeDeclaredBy c.1 = some c.2.2.2.1 ∧ (kindOfDelegate c.2.1).isSome = true := by
+  decide
+
+/-- **copy-of-DefaultHeader and laziness clauses** over the regenerated table: each generic constructor
+    contains exactly one sending call, it sits inside the closure given to `MonadIONewGenerics`, its header
+    argument is `DefaultHeader.Clone()`, its method/URL arguments are the constructor's method and
+    `replacePathParams(relativeURL, pathParam)`, and the response is decoded inside the closure -/
+theorem C17_generic : ∀ g ∈ Gen.apiGenerics,
+    g.2.2.1 = 1 ∧ g.2.2.2.1 = true ∧ g.2.2.2.2.2.1 = true ∧ g.2.2.2.2.2.2.1 = "method" ∧
+    g.2.2.2.2.2.2.2.1 = "api.replacePathParams(relativeURL, pathParam)" ∧ g.2.2.2.2.2.2.2.2.2 = true := by
+  decide
+
+/-- the model's named constructors carry the method their name says and the template unchanged -/
+theorem C17_method_model (name : String) (tmpl : Str) (d : ApiDef) (h : namedCtor name tmpl = some d) :
+    (methodNamedBy name).map String.toList = some d.method ∧ d.tmpl = tmpl ∧
+    (contentTypeDeclaredBy name).map String.toList = some d.contentType := by
+  unfold namedCtor at h
+  cases hf : expectedCtors.find? (·.name = name) with
+  | none => simp [hf] at h
+  | some r =>
+    have hmem := List.mem_of_find?_eq_some hf
+    have hname : r.name = name := by simpa using List.find?_some hf
+    subst hname
+    simp only [hf, Option.bind_some] at h
+    simp only [expectedCtors, List.mem_cons, List.not_mem_nil, or_false] at hmem
+    rcases hmem with rfl | rfl | rfl | rfl | rfl | rfl | rfl | rfl <;>
+      (simp [ctorOfRow, kindOfDelegate] at h; subst h; refine ⟨?_, rfl, ?_⟩ <;> (dsimp only; decide))
+
+example : namedCtor "APIMakePutJSONBody" "x".toList = some ⟨.body, "PUT".toList, "x".toList, "application/json".toList⟩ := by
+  decide
+
+/-! ## one evaluation: lazy, exactly one request, the prescribed request, errors not panics -/
+
+/-- what the serializer stage yields: body record and content type (`Err` aborts before anything is sent) -/
+def serialize (d : ApiDef) (env : Env) (body : Option Body) : Except ErrC (Str × Str) :=
+  match d.kind with
+  | .noBody => .ok ("nil".toList, [])
+  | .body => match body with
+    | none => .ok ("nil".toList, d.contentType)
+    | some b => (env.jsonSer b).map (·, d.contentType)
+  | .multipart => match body with
+    | none => .ok ("nil".toList, [])
+    | some b => env.mpSer b
+
+theorem effect_eq_sendWith (api : Api) (d : ApiDef) (env : Env) (ps : List (Str × Val)) (body : Option Body)
+    (tgt : Nat) (w : World) :
+    effect {} api d env ps body tgt w =
+      match serialize d env body with
+      | .error e => (.resp (some e) none, w)
+      | .ok (b, ct) =>
+        match sendWith env api.defaultHeader d.method (urlOf {} api d ps) b ct w with
+        | (.error e, w) => (.resp (some e) none, w)
+        | (.ok raw, w) => decodeResponseBody true env raw tgt w := by
+  unfold effect serialize sendWith
+  cases d.kind with
+  | noBody => simp only [dnr_eq]; rfl
+  | body =>
+    cases body with
+    | none => rfl
+    | some b => simp only []; cases h : env.jsonSer b <;> simp only [Except.map] <;> rfl
+  | multipart =>
+    cases body with
+    | none => rfl
+    | some b =>
+      simp only []
+      cases h : env.mpSer b with
+      | error e => rfl
+      | ok p => cases p; rfl
+
+/-- **laziness.**  Calling the API function only builds a `MonadIO`; the world (transport log, header
+    maps) is touched by nothing but an evaluation.  (In the model a `MonadIO` is a function of the world:
+    the statement is that the function is the constructor's `effect` and nothing else.) -/
+theorem C17_lazy (api : Api) (d : ApiDef) (ps : List (Str × Val)) (body : Option Body) (tgt : Nat) :
+    apiCall {} api d ps body tgt = fun env w => effect {} api d env ps body tgt w := rfl
+
+/-- the driver's `call` step (invoking the API function with path parameters, body and target) sends
+    nothing and touches no header map: only an evaluation does -/
+theorem C17_call_sends_nothing (fl : Flags) (d : ApiDef) (st : St) (ps : List (Str × Val)) (body : Option Body) :
+    (callStep fl d st ps body).w.log = st.w.log ∧ (callStep fl d st ps body).w.heap = st.w.heap ∧
+    (callStep fl d st ps body).ios.length = st.ios.length + 1 := by
+  simp [callStep]
+
+/-- **exactly one request, the prescribed one, through a private header copy; errors surface.**
+    For every configuration, parameters, body, environment and world with a valid DefaultHeader address,
+    one evaluation is one of:
+    * the serializer failed with `e`: `Err = e`, nothing sent, world unchanged;
+    * the method / URL is not acceptable to `net/http`: `Err`, nothing sent, every existing header map unchanged;
+    * exactly ONE request `r` reaches the transport, with the constructor's method, the substituted URL, the
+      serializer's body, header content = DefaultHeader's content plus the content type, in a header map
+      allocated by this evaluation (so not DefaultHeader itself), every existing header map unchanged; then a
+      transport error `e` gives `Err = e`, otherwise the body is decoded. -/
+theorem C17_once (api : Api) (d : ApiDef) (env : Env) (ps : List (Str × Val)) (body : Option Body) (tgt : Nat)
+    (w : World) (hwf : ∀ a, api.defaultHeader = some a → a < w.heap.length) :
+    match serialize d env body with
+    | .error e => effect {} api d env ps body tgt w = (.resp (some e) none, w)
+    | .ok (b, ct) =>
+      (∃ w' e, effect {} api d env ps body tgt w = (.resp (some e) none, w') ∧ Ext w w' [] ∧
+          ((e = .method ∧ validMethod (normMethod d.method) = false) ∨
+           (e = .url ∧ urlParse (replacePathParams api.base d.tmpl ps) = none))) ∨
+      (∃ r w', IsSpecRequest ((api.defaultHeader.map w.get).getD []) d.method (replacePathParams api.base d.tmpl ps) b ct w r ∧
+          Ext w w' [r] ∧
+          effect {} api d env ps body tgt w =
+            match env.transport r with
+            | .error e => (.resp (some e) none, w')
+            | .ok raw => decodeResponseBody true env raw tgt w') := by
+  rw [effect_eq_sendWith]
+  cases hs : serialize d env body with
+  | error e => rfl
+  | ok p =>
+    obtain ⟨b, ct⟩ := p
+    simp only []
+    have hu : urlOf {} api d ps = replacePathParams api.base d.tmpl ps := rfl
+    rw [hu]
+    rcases sendWith_cases env api.defaultHeader d.method (replacePathParams api.base d.tmpl ps) b ct w hwf with
+      ⟨h1, w', h2, h3⟩ | ⟨h1, h2, w', h3, h4⟩ | ⟨h1, r, w', h2, h3, h4⟩
+    · left; exact ⟨w', .method, by rw [h2], h3, Or.inl ⟨rfl, h1⟩⟩
+    · left; exact ⟨w', .url, by rw [h3], h4, Or.inr ⟨rfl, h2⟩⟩
+    · right
+      refine ⟨r, w', h2, h3, ?_⟩
+      rw [h4]
+      cases env.transport r <;> rfl
+
+/-- non-vacuity of `C17_once`: a POST-JSON definition, DefaultHeader `X-A: 1` at address 0, sends one request
+    with a *different* header address and leaves DefaultHeader's content alone -/
+example :
+    let api : Api := ⟨"http://h".toList, some 0⟩
+    let w : World := ⟨[[("X-A".toList, ["1".toList])]], [], [([], 0)]⟩
+    let d : ApiDef := ⟨.body, "POST".toList, "u/{id}".toList, "application/json".toList⟩
+    let out := effect {} api d (envOf .none (some ("v".toList, 3))) [("id".toList, .int 7)] (some (.json "a".toList 1)) 0 w
+    out.1 = .resp none (some ("v".toList, 3)) ∧ (out.2.log.map (·.hdrAddr)) = [1] ∧ out.2.get 0 = w.get 0 ∧
+      out.2.log.map (·.url) = ["http://h/u/7".toList] := by
+  decide
+
+/-- **no panic.**  No evaluation of a constructor's effect ends in a Go panic, whatever serializer,
+    transport, body reader and deserializer do (incl. a deserializer returning `(nil, err)`). -/
+theorem C17_errors (api : Api) (d : ApiDef) (env : Env) (ps : List (Str × Val)) (body : Option Body) (tgt : Nat)
+    (w : World) : (effect {} api d env ps body tgt w).1 ≠ .panic := by
+  rw [effect_eq_sendWith]
+  cases serialize d env body with
+  | error e => simp
+  | ok p =>
+    obtain ⟨b, ct⟩ := p
+    simp only []
+    cases hsw : sendWith env api.defaultHeader d.method (urlOf {} api d ps) b ct w with
+    | mk res w' =>
+      cases res with
+      | error e => simp
+      | ok raw => exact decode_no_panic env raw tgt w'
+
+/-- decoding failures surface as `Err` with the deserializer's error; a read error likewise -/
+theorem C17_decode_errors (env : Env) (tgt : Nat) (w : World) :
+    (∀ e, (decodeResponseBody true env (.error e) tgt w).1 = .resp (some e) none) ∧
+    (∀ bytes e, env.deser bytes (w.target tgt) = (none, some e) →
+      (decodeResponseBody true env (.ok bytes) tgt w).1 = .resp (some e) none) ∧
+    (∀ bytes t, env.deser bytes (w.target tgt) = (some t, none) →
+      decodeResponseBody true env (.ok bytes) tgt w = (.resp none (some t), w.setTarget tgt t)) := by
+  refine ⟨fun e => rfl, fun bytes e h => ?_, fun bytes t h => ?_⟩ <;> simp [decodeResponseBody, h]
+
+/-- the pinned code (`tempTarget.(*R)` without comma-ok) panics when the deserializer returns `(nil, err)` -/
+theorem C17_pinned_decoder_panics :
+    (decodeResponseBody false (envOf .dec none) (.ok []) 0 ⟨[], [], [([], 0)]⟩).1 = .panic := by decide
+
+/-- passing DefaultHeader itself instead of a clone (`cloned := false`) lets the request's content type leak
+    into DefaultHeader: the copy clause is not a formality -/
+theorem C17_shared_header_refuted :
+    let api : Api := ⟨"http://h".toList, some 0⟩
+    let w : World := ⟨[[]], [], [([], 0)]⟩
+    let d : ApiDef := ⟨.body, "POST".toList, "x".toList, "application/json".toList⟩
+    ((effect { cloned := false } api d (envOf .none none) [] none 0 w).2.get 0) ≠ w.get 0 := by
+  decide
+
+end FpgoVerif.C17
